@@ -104,6 +104,7 @@ pub fn short_l1_image() -> ImageSet {
     s.kinds[0] = GKind::Data;
     s.kinds[1] = GKind::Data;
     s.short_l1 = true;
+    s.l1_tail_junk = true;
     from_specs("G9w-short-l1", "shortl1", vec![s])
 }
 
@@ -116,7 +117,24 @@ pub fn short_l1_odd_image() -> ImageSet {
     s.kinds[0] = GKind::Data;
     s.kinds[1] = GKind::Data;
     s.short_l1 = true;
+    s.l1_tail_junk = true;
     from_specs("G9w-short-l1-odd", "shortl1-odd", vec![s])
+}
+
+/// l1_size 1 of 192 and only two free clusters left under refcount block 0: the relocated table
+/// (3 clusters) does not fit into the lowest free run
+pub fn short_l1_rb_edge_image() -> ImageSet {
+    let g = g9_wide(192);
+    let mut s = ImageSpec::new(g.cluster_bits, g.order, g.vsize());
+    let ncl = s.guest_clusters();
+    s.kinds = vec![GKind::Unalloc; ncl];
+    // header, reftable, refblock, L1, L2 + 57 data clusters = 62 of 64
+    for c in 0..57 {
+        s.kinds[c] = GKind::Data;
+    }
+    s.short_l1 = true;
+    s.l1_tail_junk = true;
+    from_specs("G9w-short-l1-rb-edge", "shortl1-rbedge", vec![s])
 }
 
 /// the header lists 128 L1 entries (two L1 clusters, both in use) although the virtual size needs 192:
@@ -130,6 +148,7 @@ pub fn short_l1_two_image() -> ImageSet {
         s.kinds[c] = GKind::Data;
     }
     s.short_l1 = true;
+    s.l1_tail_junk = true;
     from_specs("G9w-short-l1-two", "shortl1-two", vec![s])
 }
 
@@ -144,6 +163,7 @@ pub fn find_extra_image(name: &str) -> Option<ImageSet> {
         "G9w-short-l1" => Some(short_l1_image()),
         "G9w-short-l1-two" => Some(short_l1_two_image()),
         "G9w-short-l1-odd" => Some(short_l1_odd_image()),
+        "G9w-short-l1-rb-edge" => Some(short_l1_rb_edge_image()),
         _ => None,
     }
 }
